@@ -15,8 +15,21 @@ def schema():
     """[(variant, wire name, [field dicts])] from the current sources"""
     global _schema
     if _schema is None:
-        ms = gen.parse_message_rs()
-        _schema = [(v, ms["names"][v], ms["structs"][st]) for v, st in ms["variants"]]
+        import json
+        cache = os.path.join(VERIF, "work", "schema_cache.json")
+        try:
+            ms = gen.parse_message_rs()
+            _schema = [(v, ms["names"][v], ms["structs"][st]) for v, st in ms["variants"]]
+            os.makedirs(os.path.dirname(cache), exist_ok=True)
+            with open(cache, "w") as f:
+                json.dump(_schema, f)
+        except gen.Shape:
+            # the translator does not recognise the current source: coq/Gen/*.v still hold the last translation, and so
+            # must the Python side (the check reports the broken translation and goes on to search for a failing input)
+            if not os.path.exists(cache):
+                raise
+            with open(cache) as f:
+                _schema = [tuple(x) for x in json.load(f)]
     return _schema
 
 
@@ -73,7 +86,12 @@ def rand_field(r, f, valid_bias):
         if k == "KOpt":
             return {"os": None if r.random() < 0.4 else s().hex()}
         n = r.choice([0, 0, 1, 1, 2, 3, 5])
-        return {"v": [s().hex() for _ in range(n)]}
+        vals = [s().hex() for _ in range(n)]
+        if n >= 2 and r.random() < 0.35:      # repeated entries, adjacent or not
+            vals[r.randrange(1, n)] = vals[0]
+            if n >= 3 and r.random() < 0.5:
+                vals[-1] = vals[0]
+        return {"v": vals}
     if ty == "TBool":
         if k == "KReg":
             return {"b": r.random() < 0.5}
